@@ -53,7 +53,7 @@ def _objects():
 
 
 def gen_cases(tier, seed):
-    reps = {"quick": 4, "thorough": 200}[tier]
+    reps = {"quick": 6, "thorough": 200}[tier]
     cases = []
     for fam, name in _objects():
         for i in range(reps):
@@ -96,6 +96,42 @@ def _make_est(fam, name, shared):
     return models.REGRESSORS[name](), False
 
 
+_CHANGES = {
+    "var_smoothing": [1e-1, 1e-6], "C": [0.05, 10.0], "max_depth": [1, 2], "alpha": [0.5, 1e-3], "n_estimators": [2, 5],
+    "n_neighbors": [1, 2], "class_prior": [0.0, 2.0], "kappa_0": [0.5, 3.0], "nu_0": [3.0, 8.0], "sigma_sq_0": [0.5, 2.0],
+    "mu_0": [-1.0, 2.0], "weight_mode": ["responsibilities", "similarities"], "window_size": [2, 4], "only_labeled": [True, False],
+    "voting": ["soft", "hard"], "max_iter": [5, 60], "weights_prior": [0.5, 2.0], "annot_prior_full": [1, 3],
+}
+
+
+def _param_change(est, rng):
+    """A legal change of one (possibly nested) parameter through the public set_params."""
+    try:
+        params = est.get_params(deep=True)
+    except Exception:
+        return None
+    cands = []
+    for k, v in params.items():
+        leaf = k.split("__")[-1]
+        if leaf in _CHANGES and not isinstance(v, (dict, list)):
+            if leaf == "n_neighbors" and v is None:
+                continue
+            cands.append(k)
+        elif leaf == "metric_dict" and (v is None or isinstance(v, dict)) and "gamma" not in str(v if v else ""):
+            cands.append(k)
+    if not cands:
+        return None
+    nested = [k for k in cands if "__" in k]
+    if nested and rng.rand() < 0.7:       # parameters of wrapped estimators are where stale copies hide
+        cands = nested
+    k = cands[rng.randint(len(cands))]
+    leaf = k.split("__")[-1]
+    if leaf == "metric_dict":
+        return {k: {"gamma": float(rng.choice([0.3, 2.0]))}}
+    vals = [v for v in _CHANGES[leaf] if v != params[k]] or _CHANGES[leaf]
+    return {k: vals[rng.randint(len(vals))]}
+
+
 def _predict_all(est, Q, fam):
     out = {}
     if fam == "clf":
@@ -134,10 +170,21 @@ def run_estimator(desc):
         has_pf = hasattr(est, "partial_fit")
     except Exception:
         has_pf = False
+    applied = []          # set_params calls made on the used object (replayed on the fresh reference object)
     for step in range(int(rng.randint(2, 7))):
-        op = ["fit", "fit", "partial_fit", "predict"][rng.randint(4)] if nfits else "fit"
+        op = ["fit", "partial_fit", "predict", "set_params", "set_params"][rng.randint(5)] if nfits else "fit"
         if op == "partial_fit" and not has_pf:
             op = "fit"
+        if op == "set_params":
+            change = _param_change(est, rng)
+            if change is None:
+                op = "fit"
+            else:
+                est.set_params(**change)
+                applied.append(change)
+                p0 = st.params_fp(est)          # set_params legitimately changes what get_params reports
+                ops.append(("set_params", sorted(change)))
+                continue
         X, y = _data(rng, kind, multi)
         try:
             steps.begin()
@@ -176,6 +223,8 @@ def run_estimator(desc):
     try:
         steps.begin()
         fresh, _ = _make_est(fam, name, {"gamma": "mean"} if name == "pwc_shared_dict" else ({"gamma": 0.5} if name == "nic_dict" else None))
+        for change in applied:
+            fresh.set_params(**change)
         used_out = _predict_all(est.fit(XB, yB), Q, fam)
         fresh_out = _predict_all(fresh.fit(XB, yB), Q, fam)
         contracts.count("C13.refit-vs-fresh-oracle")
@@ -223,7 +272,10 @@ def run_stream(desc):
         bm = None if bmname == "None" else streams.make_bm(bmname, budget, 20, 3)
         extra = dict(streams.variant_kwargs(sname, desc["seed"]))
         if sname in ("StreamProbabilisticAL",):
-            extra["metric"] = [None, "rbf"][desc["seed"] % 2]
+            extra["metric"] = [None, "rbf", "rbf"][desc["seed"] % 3]
+            if extra["metric"] == "rbf":
+                # caller-owned dictionaries: absent, empty, or without the key the strategy resolves lazily
+                extra["metric_dict"] = [None, {}, {"gamma": 0.5}][(desc["seed"] >> 2) % 3]
         obj = streams.make_strategy(sname, None if bm is not None else budget, int(desc["seed"] % 1000), bm=bm, **extra)
         comp = sname
     viol = []
